@@ -251,6 +251,7 @@ impl Scenario for TxHistory {
             quick_runs: 20_000,
             thorough_runs: 3_000_000,
             rlimit_as: 8 << 30,
+            alloc_abort_is_violation: true,
         }
     }
 
